@@ -1253,7 +1253,7 @@ def _construct_params(ctx, g) -> set:
                 a_, inside = x, False
                 while a_ is not None and not isinstance(a_, ast.stmt):
                     pa = parent(a_)
-                    if isinstance(pa, ast.Subscript) and pa.slice is a_ or (isinstance(pa, ast.Subscript) and isinstance(pa.slice, ast.Tuple) and False):
+                    if isinstance(pa, ast.Subscript) and pa.slice is a_:
                         if isinstance(pa.value, ast.Attribute) and pa.value.attr == "edges":
                             inside = True
                     a_ = pa
